@@ -180,6 +180,18 @@ class Facts:
                     out.append((f, bb, t))
         return out
 
+    def adt_of_type(self, ty):
+        """ADT id for a type string: the longest ADT id that prefixes the type (ADTs nested in generic
+        items print as `a::B<C>::f::{closure#0}::Out<..>`, so cutting at the first `<` is wrong)."""
+        t = re.sub(r"^(&('[^ ]+ )?(mut )?)+", "", ty)
+        simple = t.split("<")[0]
+        best = simple if simple in self.adts else None
+        if best is None or "<" in t[len(simple):].split(">")[-1]:
+            for a in self.adts:
+                if t.startswith(a) and (len(t) == len(a) or t[len(a)] == "<") and (best is None or len(a) > len(best)):
+                    best = a
+        return best if best is not None else simple
+
     def adt_fields(self, adt, variant=None):
         a = self.adts.get(adt)
         if not a:
@@ -573,7 +585,7 @@ class Fn:
         dbb, kind, node = ds[0]
         if kind == "assign" and node["rv"]["rv"] == "discr":
             ty = node["rv"]["ty"]
-            adt = re.sub(r"^&+(mut )?", "", ty).split("<")[0]
+            adt = self.facts.adt_of_type(ty)
             a = self.facts.adts.get(adt)
             names = {}
             if a:
